@@ -98,14 +98,19 @@ Definition declare (int : N) (s : st) (name : string) : st :=
 
 (* a fresh local prefix for the current block (after an ordinary label) *)
 Definition bump_local (s : st) : st :=
-  let t := topf s in
-  {| next_loc := next_loc s + 1; next_int := next_int s; syms := syms s; exts := exts s; isl := isl s;
-     errs := errs s; outs := outs s;
-     stack := {| f_isfile := f_isfile t; f_int := f_int t; f_loc := next_loc s; f_xall := f_xall t |} :: tl (stack s) |}.
+  match stack s with
+  | [] => s
+  | t :: r =>
+      {| next_loc := next_loc s + 1; next_int := next_int s; syms := syms s; exts := exts s; isl := isl s;
+         errs := errs s; outs := outs s;
+         stack := {| f_isfile := f_isfile t; f_int := f_int t; f_loc := next_loc s; f_xall := f_xall t |} :: r |}
+  end.
 
 Definition set_xall (s : st) : st :=
-  let t := topf s in
-  with_stack s ({| f_isfile := f_isfile t; f_int := f_int t; f_loc := f_loc t; f_xall := true |} :: tl (stack s)).
+  match stack s with
+  | [] => s
+  | t :: r => with_stack s ({| f_isfile := f_isfile t; f_int := f_int t; f_loc := f_loc t; f_xall := true |} :: r)
+  end.
 
 Definition step (s : st) (e : ev) : st :=
   let t := topf s in
